@@ -367,7 +367,8 @@ def _init_worker() -> None:
 
     logging.disable(logging.CRITICAL)
     warnings.simplefilter("ignore")
-    sys.setrecursionlimit(10000)
+    # (not the value the package itself sets when it is imported: a change of the limit by the package stays visible)
+    sys.setrecursionlimit(9000)
     # a case that allocates without end (a loop that appends) ends in MemoryError instead of taking the machine down
     try:
         import resource
